@@ -551,6 +551,26 @@ func runCheck(id string, pc *propCfg, tier string, seed uint64, replay string, p
 		copyFile(rep.Replay, dst)
 		copyFile(strings.TrimSuffix(rep.Replay, ".json")+".orig.json", strings.TrimSuffix(dst, ".json")+".orig.json")
 		ok := rep.Repro && doReplay(id, bin, dst, false) == 1
+		if !ok && pc.Race {
+			// the race detector keeps a bounded, randomly evicted access history per memory word:
+			// whether it sees a given race in a given execution is not deterministic although the
+			// schedule is. Replay again, then try the other recorded runs of this class.
+			for try := 0; try < 3 && !ok; try++ {
+				ok = doReplay(id, bin, dst, false) == 1
+			}
+			for i := 0; i < len(fl) && i < 6 && !ok; i++ {
+				if fl[i].Replay == "" || fl[i].Replay == rep.Replay {
+					continue
+				}
+				alt := filepath.Join(verifDir, "replays", filepath.Base(fl[i].Replay))
+				copyFile(fl[i].Replay, alt)
+				for try := 0; try < 2 && !ok; try++ {
+					if doReplay(id, bin, alt, false) == 1 {
+						ok, dst, rep = true, alt, &fl[i]
+					}
+				}
+			}
+		}
 		if !ok {
 			outLines = append(outLines, fmt.Sprintf("INFRASTRUCTURE-ERROR non-reproducible failure class=%s seed=%d replay=%s (%d occurrences)", c, rep.RunSeed, dst, len(fl)))
 			if exit == 0 {
